@@ -2973,7 +2973,9 @@ def check_c12(ctx):
 
 # ------------------------------------------------------------------------------ C08 / C09 static semantics
 def analyzer_stage(ctx, rep, want_gen=False):
-    descs = kit.build(ctx.tier) + kit.schema_descs(ctx.tier)
+    # base descriptions: the kit, and descriptions written by the builder machine (every edit site / permutation /
+    # group wrapping of PdlGen applies to them as well)
+    descs = kit.build(ctx.tier) + kit.schema_descs(ctx.tier) + builder_descs(ctx.tier, ctx.seed, None, n=48 if ctx.tier == "quick" else 400)
     dp = os.path.join(ctx.tmp, "adescs.ndjson")
     write_ndjson(dp, descs)
     lines, stats = tlc("MC_Analyzer", "MC_Analyzer.cfg", dict(DESCS=dp), tag="an")
